@@ -179,6 +179,17 @@ def gen_cases(tier, seed):
         cases.append({'seed': rng.randrange(1 << 30), 'min_part': C, 'sequential': True, 'transfers': ts,
                       'config': dict(multipart_threshold=T, multipart_chunksize=C, max_request_concurrency=rng.choice([1, 2, 3])),
                       'body_read_sizes': rng.choice([[8192], [3]])})
+    # the same path uploaded again through the same manager after the file was rewritten with another length (shorter, longer,
+    # across the threshold, another number of parts): nothing about the first upload may be remembered
+    for i in range(30 if tier == 'quick' else 300):
+        T, C = rng.choice([(8, 8), (16, 8), (20, 8)])
+        sizes = [1, T - 1, T, 2 * C + 1, 4 * C, 5 * C + 3]
+        n = rng.choice([2, 3])
+        ts = [{'kind': 'upload', 'src': 'path', 'size': rng.choice(sizes)}]
+        for j in range(1, n):
+            ts.append({'kind': 'upload', 'src': 'path', 'size': rng.choice([z for z in sizes if z != ts[-1]['size']]), 'same_source_as': 0})
+        cases.append({'seed': rng.randrange(1 << 30), 'min_part': C, 'sequential': True, 'transfers': ts, 'family': 'same-path-again',
+                      'config': dict(multipart_threshold=T, multipart_chunksize=C, max_request_concurrency=rng.choice([1, 2, 3]))})
     # explicit checksum algorithms (part checksums must be listed at complete)
     for algo in ('CRC32', 'SHA256', 'SHA1'):
         for src in ('path', 'seekable', 'nonseekable'):
